@@ -135,6 +135,32 @@ def tla(v: Any) -> str:
     raise TlcError(f"cannot render {v!r}")
 
 
+def _complex(v: Any) -> bool:
+    if isinstance(v, (list, tuple, dict)):
+        return True
+    if isinstance(v, (set, frozenset)):
+        return any(_complex(x) or (isinstance(x, int) and not isinstance(x, bool) and x < 0) for x in v)
+    return isinstance(v, int) and not isinstance(v, bool) and v < 0
+
+
+def prepare(module: str, constants: Dict[str, Any], **kw) -> Dict[str, Any]:
+    """Constants that a cfg file cannot express (tuples, records, negative numbers) are moved into a
+    generated module MC_<module> that EXTENDS <module>; returns kwargs for run()/Check.run_tlc()."""
+    defs, simple = {}, {}
+    for k, v in constants.items():
+        if _complex(v):
+            defs[k] = v
+            simple[k] = Subst(f"MC_{k}")
+        else:
+            simple[k] = v
+    cfg = cfg_text(constants=simple, **kw)
+    if not defs:
+        return {"module": module, "cfg": cfg, "files": {}}
+    mc = f"MC_{module}"
+    text = f"---- MODULE {mc} ----\nEXTENDS {module}\n" + "".join(f"MC_{k} == {tla(v)}\n" for k, v in defs.items()) + "====\n"
+    return {"module": mc, "cfg": cfg, "files": {f"{mc}.tla": text}}
+
+
 class Raw:
     """A literal piece of cfg text (model value, operator substitution `<- Name` is handled by key)."""
     def __init__(self, text: str):
